@@ -95,6 +95,16 @@ def reply_program():
     return Contract(methods=tuple(ms), interfaces=(i0,), features="replies", entry_points="")
 
 
+def legacy_reply_program():
+    """Legacy reply handler (no `replies` feature) whose name has a letter/digit boundary, next to a
+    sudo handler named like the re-cased form (C04)."""
+    ms = [Method("instantiate", "inst", ()),
+          Method("reply", "on_reply2", (Arg("reply", "Reply"),), ctx_ty="vsupport::sylvia::types::ReplyCtx"),
+          Method("sudo", "on_reply_2", (Arg("reply", "Reply"),)),
+          Method("exec", "foo", ())]
+    return Contract(methods=tuple(ms), entry_points="")
+
+
 def kinds_program(ckinds, ikinds, with_migrate):
     ms = [Method("instantiate", "inst", (Arg("a", "u32"),))]
     if with_migrate:
@@ -129,6 +139,7 @@ def programs(tier):
     out.append(("perr0", error_program(), {"errors"}))
     out.append(("psame0", samename_program(), {"samename"}))
     out.append(("preply0", reply_program(), {"reply"}))
+    out.append(("plegacy0", legacy_reply_program(), {"reply", "legacy"}))
     for n in (0, 1, 2):
         out.append(("pparts%d" % n, parts_program(n), {"parts"}))
     KS = ["exec", "query", "sudo"]
